@@ -209,7 +209,7 @@ Skel(k, b1, b2, c, sfx) ==
       [] k = 15 -> <<IfI(Decl("w" \o sfx, I, Bin("*", I, vn, IntL(2))), Bin(">", I, Var("w" \o sfx), IntL(3)), <<Mark(Var("w" \o sfx))>> \o b1, b2)>>
 
 \* fillers of a slot: markers, jumps legal in the context, early return, panic, every depth-1 skeleton with marker bodies
-NFill == 7 + NSkel
+NFill == 9 + NSkel
 FillOk(f, cx) == CASE f = 2 -> cx.brk [] f = 3 -> cx.loop [] f = 4 -> cx.lbl # "" [] f = 5 -> cx.lbl # "" [] OTHER -> TRUE
 Fill(f, cx) ==
     CASE f = 1 -> M(11)
@@ -219,7 +219,13 @@ Fill(f, cx) ==
       [] f = 5 -> M(15) \o <<Cont(cx.lbl)>>
       [] f = 6 -> <<Ret(<<Bin("+", I, vs, IntL(1))>>)>>
       [] f = 7 -> <<If(Eq(vn, IntL(3)), <<Panic(StrL(<<120>>))>>, M(16))>>
-      [] OTHER -> Skel(f - 7, M(21), M(22), 30, "2")
+      \* a NEW s local to the slot's block / clause (what follows the slot goes on with the outer one)
+      [] f = 8 -> <<Decl("s", I, Bin("+", I, vn, IntL(500))), Mark(IntL(17))>>
+      \* a call whose (grouped, named) results are discarded, with whatever the enclosing statement keeps on the evaluation stack below it
+      [] f = 9 -> <<CallS("two", <<vn>>)>> \o M(18)
+      [] OTHER -> Skel(f - 9, M(21), M(22), 30, "2")
+TwoFn == Func("two", <<Prm("x", I)>>, <<Prm("q", I), Prm("r", I)>>, TRUE,
+              <<Asg(Var("q"), Bin("+", I, Var("x"), IntL(7))), Asg(Var("r"), Bin("*", I, Var("x"), IntL(3))), Ret(<<>>)>>, FALSE)
 
 PSk == <<Prm("n", I), Prm("xs", "ints")>>
 \* named = TRUE: the same function with a NAMED result s and a bare return
@@ -259,7 +265,8 @@ Next == /\ done = 0
               \E x \in {y \in 1..Len(sc) : y % Chunks = chunk - 1} :
                  LET fn == SkelFn(sc[x][1], sc[x][2], sc[x][3], x % 3 = 0) IN
                  /\ done' = 100000 + x
-                 /\ Emit("k" \o ToString(sc[x][1]) \o "_" \o ToString(sc[x][2]) \o "_" \o ToString(sc[x][3]), "skel", Prog(<<>>, <<fn>>), <<"F">>, ArgsSk)
+                 /\ Emit("k" \o ToString(sc[x][1]) \o "_" \o ToString(sc[x][2]) \o "_" \o ToString(sc[x][3]), "skel",
+                         Prog(<<>>, <<fn>> \o (IF sc[x][3] = 9 THEN <<TwoFn>> ELSE <<>>)), <<"F">>, ArgsSk)
            \/ \E x \in {y \in 0..(NSkel * 3 * 2 - 1) : y % Chunks = chunk - 1} :
                  LET k == x \div 6 + 1  fi == (x % 6) \div 2 + 1  dv == x % 2 IN
                  /\ done' = 200000 + x
